@@ -10,7 +10,7 @@ RULE = ("bridge_peg: L1 histories of lock / burn / claim / pause / blacklist / f
         "unset (duplicate-denomination panic), fees below / at / above the floor, amounts above the balance, invalid denominations, chain ids 0 and "
         "negative, receivers in eight spellings (EIP-55, lower, upper, un-prefixed, 0X, EIP-55 with 1 / 2 / half of its letters flipped) and non-addresses, blacklists with several spellings; "
         "claim symbols differing in case only / prefixes of one another / starting with the pegged prefix (usdt USDT Usdt usd usdtx cusdt …), each minted denomination then locked and burned by its holder; 8 executions per history. Judged on the implementation's observations: Spec.C07.pegStep (balances, supply, exactly one event), gateOK "
-        "(pause, address-level blacklist, native/pegged where pegged = in the stored list OR minted by a lock credit earlier in the history; burn of a minted token never refused as native), peggyRegOK (after a SUCCESS claim the stored list = old list + exactly the credited denomination), supplyOK (supply = genesis + credits - locks - burns per denomination after every message). "
+        "(pause as the RAW STORE flag says — also after multi-message transactions whose un-pause is discarded with a failing later message, same block and next —, address-level blacklist, native/pegged where pegged = in the stored list OR minted by a lock credit earlier in the history; burn of a minted token never refused as native), peggyRegOK (after a SUCCESS claim the stored list = old list + exactly the credited denomination), supplyOK (supply = genesis + credits - locks - burns per denomination after every message). "
         "non-trivial = distinct accepted message, or a gate chk with the bridge paused or the receiver listed")
 TRUSTED_BASE = [
     "Lean 4.33.0 kernel; axioms propext, Classical.choice, Quot.sound (audited per theorem on every run)",
